@@ -60,6 +60,16 @@ def runVparams (inp : List String) (out : String) : Option Res := do
            note := if spec == out then "" else s!"total power {total}: stored parameters {out}, two thirds rounded down give {spec}" }
   | _ => none
 
+/-- family `evmaddr`: the address `EVMAddressFromSignatures` derives from a validator's two initial signatures is the address of
+    the key that made them (whatever recovery ids the two signatures need), and two signatures of different keys give no address -/
+def runEvmAddr (_inp : List String) (out : String) : Option Res :=
+  match out.splitOn ":" with
+  | [got, want, kind, ra, rb] =>
+    let good := if kind == "same" then got == want else got == "err"
+    some { agree := true, monitor := good, nontrivial := kind == "same" && ra != rb, model := "",
+           note := if good then "" else s!"signatures of {if kind == "same" then "one key" else "two keys"} (recovery ids {ra}/{rb}): derived {got}, the signer's address is {want}" }
+  | _ => some { agree := false, monitor := true, nontrivial := false, model := "", note := s!"unparsable {out}" }
+
 /-- the contract side: the digest of `verifyOracleData` -/
 def solAttestPre (queryId value : Bytes) (ts power prev next : Nat) (checkpoint : Bytes) (attestTs : Nat) : Bytes :=
   enc [.word ((hx "74656c6c6f7243757272656e744174746573746174696f6e0000000000000000").getD []), .word queryId, .dyn value,
